@@ -12,6 +12,7 @@ import (
 	"net"
 	"os"
 	"os/exec"
+	"os/signal"
 	"strconv"
 	"strings"
 	"sync"
@@ -106,7 +107,13 @@ func targetMain(args []string) {
 		}
 	}
 	fmt.Println("READY")
-	select {}
+	// SIGUSR1: walk the timestamp store under its own lock and report (verif hook)
+	sig := make(chan os.Signal, 1)
+	signal.Notify(sig, syscall.SIGUSR1)
+	for range sig {
+		clients, values, err := server.VerifCheckStore()
+		fmt.Printf("LOG STORE clients=%d values=%d err=%v\n", clients, values, err)
+	}
 }
 
 func init() { Legs["target"] = targetMain }
@@ -279,4 +286,23 @@ func (t *Target) ExitInfo() (first, frame string) {
 		}
 	}
 	return
+}
+
+// StoreReport asks the child to walk its timestamp store and returns the reported line.
+func (t *Target) StoreReport(d time.Duration) string {
+	t.DrainLogs()
+	_ = t.cmd.Process.Signal(syscall.SIGUSR1)
+	deadline := time.After(d)
+	for {
+		select {
+		case ln := <-t.logCh:
+			if strings.Contains(ln, "STORE ") {
+				return ln
+			}
+		case <-deadline:
+			return ""
+		case <-t.done:
+			return ""
+		}
+	}
 }
